@@ -75,7 +75,7 @@ func fieldsTie(run *lib.Run, st *lib.Stats) {
 		panic(err)
 	}
 	for _, p := range problems {
-		st.Fail("fields:anchor-missing", "translator: "+p, map[string]interface{}{"repo": run.Repo})
+		failOnce(st, "fields:anchor-missing", "translator: "+p, map[string]interface{}{"repo": run.Repo})
 	}
 	nf, nc := 0, 0
 	for _, r := range rows {
@@ -95,11 +95,11 @@ func fieldsTie(run *lib.Run, st *lib.Stats) {
 			} else if f.Deser {
 				which = "Serialize"
 			}
-			st.Fail("fields:"+k, fmt.Sprintf("field %s is not touched by %s of its struct (and is not on the allow-list of deliberately unpersisted fields)", k, which),
+			failOnce(st, "fields:"+k, fmt.Sprintf("field %s is not touched by %s of its struct (and is not on the allow-list of deliberately unpersisted fields)", k, which),
 				map[string]interface{}{"struct": f.Struct, "field": f.Name, "serialize": f.Ser, "deserialize": f.Deser})
 		}
 		if strings.Join(r.SerOrder, ",") != strings.Join(r.DeserOrder, ",") {
-			st.Fail("fields:order:"+r.Struct, "Serialize and Deserialize of "+r.Struct+" touch the fields in different orders",
+			failOnce(st, "fields:order:"+r.Struct, "Serialize and Deserialize of "+r.Struct+" touch the fields in different orders",
 				map[string]interface{}{"serialize": r.SerOrder, "deserialize": r.DeserOrder})
 		}
 	}
@@ -273,7 +273,7 @@ func report(run *lib.Run, st *lib.Stats, id *int, name string, i, mode int, diff
 	st.Count(fmt.Sprintf("%s:%x", name, wire), mode != 0 && outcome == "ok", name)
 	st.LogCase(run.Out, *id, map[string]interface{}{"target": name, "index": i, "mode": mode, "outcome": outcome, "bytes": len(wire), "diffs": diffs})
 	if outcome != "ok" {
-		st.Fail("roundtrip:"+name+":"+strings.SplitN(outcome, ":", 2)[0], name+": Serialize/Deserialize of a well-formed instance failed: "+outcome,
+		failOnce(st, "roundtrip:"+name+":"+strings.SplitN(outcome, ":", 2)[0], name+": Serialize/Deserialize of a well-formed instance failed: "+outcome,
 			map[string]interface{}{"target": name, "seed": run.Seed, "index": i, "mode": mode})
 		return
 	}
@@ -284,7 +284,7 @@ func report(run *lib.Run, st *lib.Stats, id *int, name string, i, mode int, diff
 			continue
 		}
 		seen[sig] = true
-		st.Fail(sig, "field not reproduced by Serialize -> Deserialize: "+d, map[string]interface{}{"target": name, "seed": run.Seed, "index": i, "mode": mode, "diff": d})
+		failOnce(st, sig, "field not reproduced by Serialize -> Deserialize: "+d, map[string]interface{}{"target": name, "seed": run.Seed, "index": i, "mode": mode, "diff": d})
 	}
 }
 
@@ -386,7 +386,7 @@ func main() {
 				st.LogCase(run.Out, id, map[string]interface{}{"target": "restore-into:" + t.name, "index": i, "mode": mode, "outcome": out2, "diffs": diffs2})
 				input := map[string]interface{}{"target": t.name, "seed": run.Seed, "index": i, "mode": mode}
 				if out2 != "ok" {
-					st.Fail("restore-into:"+t.name+":"+strings.SplitN(out2, ":", 2)[0], "Deserialize into a populated receiver failed: "+out2, input)
+					failOnce(st, "restore-into:"+t.name+":"+strings.SplitN(out2, ":", 2)[0], "Deserialize into a populated receiver failed: "+out2, input)
 				}
 				seen := map[string]bool{}
 				for k, d := range diffs2 {
@@ -397,7 +397,7 @@ func main() {
 					if !seen[sig] {
 						seen[sig] = true
 						input["diff"] = d
-						st.Fail(sig, "Deserialize into a receiver that already holds data does not reproduce the serialized value (it extends the receiver instead of replacing it): "+d, input)
+						failOnce(st, sig, "Deserialize into a receiver that already holds data does not reproduce the serialized value (it extends the receiver instead of replacing it): "+d, input)
 					}
 				}
 			}
